@@ -1805,17 +1805,25 @@ where
             // process auto applying TopicAlias if the option is enabled
             if self.auto_map_topic_alias_send {
                 if let Some(ref mut topic_alias_send) = self.topic_alias_send {
+                    // the rewritten packet must still respect the peer's Maximum Packet Size,
+                    // otherwise the packet is sent as given (it passed the size check above)
                     if let Some(found_ta) = topic_alias_send.find_by_topic(packet.topic_name()) {
                         trace!(
                             "topic alias: {} - {} is found.",
                             packet.topic_name(),
                             found_ta
                         );
-                        packet = packet.remove_topic_add_topic_alias(found_ta);
+                        let candidate = packet.clone().remove_topic_add_topic_alias(found_ta);
+                        if candidate.size() <= self.maximum_packet_size_send as usize {
+                            packet = candidate;
+                        }
                     } else {
                         let lru_ta = topic_alias_send.get_lru_alias();
-                        topic_alias_send.insert_or_update(packet.topic_name(), lru_ta);
-                        packet = packet.add_topic_alias(lru_ta);
+                        let candidate = packet.clone().add_topic_alias(lru_ta);
+                        if candidate.size() <= self.maximum_packet_size_send as usize {
+                            topic_alias_send.insert_or_update(packet.topic_name(), lru_ta);
+                            packet = candidate;
+                        }
                     }
                 }
             } else if self.auto_replace_topic_alias_send {
@@ -1826,7 +1834,10 @@ where
                             packet.topic_name(),
                             found_ta
                         );
-                        packet = packet.remove_topic_add_topic_alias(found_ta);
+                        let candidate = packet.clone().remove_topic_add_topic_alias(found_ta);
+                        if candidate.size() <= self.maximum_packet_size_send as usize {
+                            packet = candidate;
+                        }
                     }
                 }
             }
